@@ -31,7 +31,7 @@ pub const CHECKS: &[CheckDef] = &[
     CheckDef { id: "C13", level: "exploration", rules: &["C13.", "C11.consistent", "C10.residue", "CRASH."], quick_runs: 4000, thorough_runs: 100_000, nontrivial_rule: ">=1 walk of >=2 pages over a listing that had deletions before it, or a forged decodable token" },
     CheckDef { id: "C14", level: "exploration", rules: &["C14.", "C09.fields", "C03.double", "CRASH."], quick_runs: 5000, thorough_runs: 150_000, nontrivial_rule: ">=1 POST was answered with a non-accepting behaviour and the same message was POSTed again" },
     CheckDef { id: "C15", level: "exploration", rules: &["C15.", "C06.quiescent", "CRASH."], quick_runs: 5000, thorough_runs: 150_000, nontrivial_rule: ">=1 Pull whose max_messages was smaller than the number of available messages, or a parked Pull that was woken" },
-    CheckDef { id: "C16", level: "fault_enumeration", rules: &["C16.", "C01.lost", "C01.redelivery", "C06.quiescent", "C07.", "C14.retry", "CRASH."], quick_runs: 5000, thorough_runs: 150_000, nontrivial_rule: "the target request was actually dropped at its k-th real suspension (outcome Abandoned); distinct = distinct (request kind, k, mailbox state, schedule fingerprint)" },
+    CheckDef { id: "C16", level: "fault_enumeration", rules: &["C16.", "C01.lost", "C01.redelivery", "C06.quiescent", "C07.", "C12.stream_hang", "C12.pull_hang", "C14.retry", "CRASH."], quick_runs: 5000, thorough_runs: 150_000, nontrivial_rule: "the target request was actually dropped at its k-th real suspension (outcome Abandoned); distinct = distinct (request kind, k, mailbox state, schedule fingerprint)" },
     CheckDef { id: "C17", level: "exploration", rules: &["C17.", "C01.", "C02.", "C03.", "C07.", "C14.retry", "C14.nonpush", "CRASH."], quick_runs: 5000, thorough_runs: 150_000, nontrivial_rule: ">=3 malformed requests were rejected with INVALID_ARGUMENT while valid traffic ran alongside" },
 ];
 
